@@ -110,6 +110,7 @@ type LemmaDecl struct {
 	Ensures  []*Clause
 	Induct   string   // induction variable (an int var of the lemma): ensures is proved for 0 and from i to i+1, and holds for every i >= 0
 	Uses     []string // other lemmas instantiated in the proof: "name(arg, ...)"
+	Assumed  string   // non-empty: the lemma is NOT proved (a stated mathematical fact outside the solver's theory); the reason is listed with every use
 	Pkg      string
 }
 
@@ -118,7 +119,7 @@ var tagRe = regexp.MustCompile(`^([a-z_]+)(\[[A-Za-z0-9, ]+\])?\s*(.*)$`)
 var keywords = map[string]bool{"pred": true, "axiom": true, "field": true, "rely": true, "func": true, "mode": true,
 	"requires": true, "ensures": true, "panics": true, "modifies": true, "pure": true, "interferes": true, "may_panic": true,
 	"nocheck": true, "safety": true, "ghost": true, "loop": true, "invariant": true, "decreases": true, "at": true,
-	"replay": true, "inline": true, "lockinv": true, "dead": true, "monitor": true, "unchecked": true, "lemma": true, "let": true, "nopanic": true, "vars": true, "exports": true, "induct": true, "use": true}
+	"replay": true, "inline": true, "lockinv": true, "dead": true, "monitor": true, "unchecked": true, "lemma": true, "let": true, "nopanic": true, "vars": true, "exports": true, "induct": true, "use": true, "assumed": true}
 
 // label by(l1, l2): expr
 var byRe = regexp.MustCompile(`^([A-Za-z_][A-Za-z_0-9]*)\s+by\(([^)]*)\)\s*(each_return)?\s*:([^:].*)$`)
@@ -306,6 +307,14 @@ func LoadContractFile(path string, cs *ContractSet) error {
 				return fmt.Errorf("%s:%d: induct outside lemma", path, l.no)
 			}
 			curLemma.Induct = rest
+		case "assumed":
+			if curLemma == nil {
+				return fmt.Errorf("%s:%d: assumed outside lemma", path, l.no)
+			}
+			if strings.TrimSpace(rest) == "" {
+				return fmt.Errorf("%s:%d: assumed needs a reason", path, l.no)
+			}
+			curLemma.Assumed = strings.TrimSpace(rest)
 		case "use":
 			if curLemma == nil {
 				return fmt.Errorf("%s:%d: use outside lemma (in functions: at <anchor> : use ...)", path, l.no)
